@@ -41,7 +41,11 @@ def gen(rng, n):
             nodes.append(['l', where + '/l2', lay.home + '/tdir'])
         slashes = '/' * rng.choice([0, 0, 1, 2, 3])
         via = rng.random() < 0.25
-        if via:
+        if via and rng.random() < 0.4 and where.count('/') >= 2:
+            # the symbolic link is higher up: the parent of the named entry is a plain directory reached THROUGH a link
+            nodes.append(['l', '/via2', os.path.dirname(where)])
+            arg = '/via2/' + os.path.basename(where) + '/' + name + slashes
+        elif via:
             nodes.append(['l', '/via', where])
             arg = '/via/' + name + slashes
         else:
@@ -49,7 +53,7 @@ def gen(rng, n):
         cwd = rng.choice(['/', where])
         if cwd == where and not via and rng.random() < 0.5:
             arg = rng.choice(['', './']) + name + slashes
-        steps = [{'cmd': 'put', 'argv': ['--', arg], 'now': [2024, 5, 6, 7, 8, 9, 0]},
+        steps = [{'cmd': 'put', 'argv': rng.choice([[], [], ['-f'], ['-v']]) + ['--', arg], 'now': [2024, 5, 6, 7, 8, 9, 0]},
                  {'cmd': 'restore', 'argv': ['/'], 'stdin': '0\n'}]
         scns.append(lay.scenario(steps, cwd=cwd, extra=nodes))
         metas.append({'link': where + '/' + name, 'target': target, 'tk': tk, 'slashes': len(slashes), 'via': via, 'where': where,
@@ -74,6 +78,13 @@ def judge(run, scn, meta, res, section='state'):
         return
     kernel_says_absent = meta['slashes'] > 0 and meta['tk'] in ('file', 'dangling')
     pairs, strays, orphans = putlib.new_trash_items(before, after)
+    forced = '-f' in scn['steps'][0]['argv'][:scn['steps'][0]['argv'].index('--')]
+    if kernel_says_absent and forced and put['exit'] == 0 and not pairs:
+        # "link/" does not exist for the kernel when the link does not lead to a directory; -f ignores what does not exist
+        if strays or orphans or link not in after:
+            run.fail('oracle', 'trash-put -f of a non-existent "link/" left traces', case, key='failure-with-traces', section=section)
+        run.nontriv((meta['tk'], meta['slashes'], meta['via'], meta['cross'], 'absent-for-kernel-forced'))
+        return
     if put['exit'] != 0:
         if kernel_says_absent:
             if pairs or strays or orphans or link not in after:
